@@ -359,7 +359,7 @@ def generate(rng, tier):
     for i, c in enumerate(pick):
         cases.append(dict(opt="DFPH"[i % 4], simplices=c, origin="exhaustive"))
     # torsion stream
-    ntor = 120 if thorough else 30
+    ntor = 400 if thorough else 120
     first = ["rp2", "klein", "disc2", "disc3", "disc4", "disc5", "susp-rp2", "rp2+disc3"] + (["disc6", "disc7"] if thorough else [])
     for i in range(ntor):
         opt = "DHFP"[i % 4]
